@@ -10,7 +10,8 @@ Ill(x) == RE(1..100) <= IllShare
 VARIABLES prog, dim
 vars == <<prog, dim>>
 D0 == [op |-> "", k |-> "ge", n |-> 0, v |-> <<>>, vs |-> <<>>, cs |-> <<>>, b |-> 0]
-Init == prog = <<>> /\ dim \in {RE(1..MaxDim)}
+\* (Init is evaluated once per TLC run: the dimension of a history is drawn by its first step)
+Init == prog = <<>> /\ dim = 0
 Emit(r) == prog' = Append(prog, r)
 Row(n, ill) == [k |-> IF ill THEN RE({"gt", "ge"}) ELSE RE({"ge", "ge", "ge", "eq"}), v |-> Mat(<<RE(-2..4)>> \o Vec(n, -3, 3))]
 BoxRows(n) == Mat([i \in 1..(2*n) |-> IF i <= n THEN [k |-> "ge", v |-> [j \in 1..(n+1) |-> IF j = i + 1 THEN 1 ELSE 0]]
@@ -21,7 +22,7 @@ Next ==
   /\ Len(prog) < MaxLen
   /\ \E op \in {IF Len(prog) = 0 THEN "new" ELSE RE(Ops)} : \E ill \in {Ill(Len(prog))} :
      LET n == IF ill /\ RE(1..2) = 1 THEN dim + 1 ELSE dim IN
-     \/ op = "new" /\ Emit([D0 EXCEPT !.op = "new", !.n = dim]) /\ UNCHANGED dim
+     \/ op = "new" /\ \E d0 \in {RE(1..MaxDim)} : Emit([D0 EXCEPT !.op = "new", !.n = d0]) /\ dim' = d0
      \/ op = "add_constraint" /\ \E nn \in {n} : \E r \in {Row(nn, ill)} : Emit([D0 EXCEPT !.op = op, !.n = nn, !.k = r.k, !.v = r.v]) /\ UNCHANGED dim
      \/ op = "add_constraints" /\ \E nn \in {n} : \E cnt \in {RE(1..3)} : Emit([D0 EXCEPT !.op = op, !.n = nn, !.cs = Mat([i \in 1..cnt |-> Row(nn, ill)])]) /\ UNCHANGED dim
      \/ op = "add_box" /\ Emit([D0 EXCEPT !.op = "add_constraints", !.n = dim, !.cs = BoxRows(dim)]) /\ UNCHANGED dim
